@@ -101,6 +101,26 @@ class Sparse:
         return type(o) is type(self) and vars(o) == vars(self)
     def __repr__(self):
         return f"Sparse({vars(self)!r})"
+@dataclasses.dataclass
+class CallDC:
+    """data whose instances can be called: a virtual subclass of collections.abc.Callable"""
+    a: int = 0
+    def __call__(self, *args):
+        return args
+class CallPlain:
+    a: int
+    def __init__(self, a: int = 0):
+        self.a = a
+    def __call__(self):
+        return self.a
+    def __eq__(self, o):
+        return type(o) is type(self) and o.a == self.a
+    def __repr__(self):
+        return f"CallPlain({self.a!r})"
+class CallNT(NamedTuple):
+    p: int = 0
+    def __call__(self):
+        return self.p
 class Sentinel:
     def __repr__(self):
         return "<sentinel>"
@@ -118,7 +138,7 @@ LEAVES = ["int", "str", "float", "bool", "bytes", "decimal.Decimal", "datetime.d
           "typing.Callable", "typing.Callable[..., int]", "typing.Callable[[int], str]", "collections.abc.Callable[[int], str]",
           "type", "type[int]", "typing.Type[DC]", "G", "G[int]", "NoHints", "NoHintsInit", "NoHintsChild", "NoHintsDefaults", "DC", "E", "NT", "TD",
           "typing.Literal[1, 'a']", "typing.Iterable", "collections.deque", "SelfSet", "DCNoInit", "Sparse", "AL_NoHints", "AL_listAny", "AL_Lit", "TBN", "NT_NoHints",
-          "list[Any]"]
+          "list[Any]", "CallDC", "CallPlain", "CallNT"]
 EXTENDED = {"Any", "object", "list", "dict", "tuple", "set", "frozenset", "typing.List", "typing.Dict", "typing.Tuple",
             "typing.Set", "typing.Sequence", "typing.Mapping", "T", "TB", "TC", "typing.Callable", "typing.Callable[..., int]",
             "typing.Callable[[int], str]", "collections.abc.Callable[[int], str]", "type", "type[int]", "typing.Type[DC]", "G",
@@ -190,7 +210,8 @@ BATTERY_SRC = ["1", "'1'", "'a'", "None", "[1, '2']", "{'a': 1}", "(1, 2)", "1.5
                # instances of the classes that set an annotated attribute themselves, bare and inside the usual containers
                "SelfSet(3)", "[SelfSet(3)]", "{'a': SelfSet(3)}", "DCNoInit(1)", "[DCNoInit(1)]", "{'value': '4'}", "{'a': '5'}",
                # the same complete object before and after one that lacks an attribute: equal inputs, equal outcomes
-               "Sparse(1, 2)", "[Sparse(1, 2)]", "Sparse(1)", "[Sparse(1)]", "Sparse(1, 2)", "[Sparse(1, 2)]"]
+               "Sparse(1, 2)", "[Sparse(1, 2)]", "Sparse(1)", "[Sparse(1)]", "Sparse(1, 2)", "[Sparse(1, 2)]",
+               "CallDC(1)", "[CallPlain(2)]", "CallNT(3)"]
 
 
 def battery(T):
